@@ -104,7 +104,7 @@ theorem nearestExternal_makeStack (st : StackType) (fr : Frames) (hst : st ≠ .
     (ho : currentPackage.isPrefixOf fr.top = false) :
     nearestExternal (makeStack st fr) = fr.top := by
   unfold nearestExternal makeStack Frames.toList
-  cases st <;> simp [StackType.depth, List.find?, ho] at hst ⊢
+  cases st <;> simp [StackType.depth, ho] at hst ⊢
 
 /-- no stack without a source: true of every factory (no stack) and kept by every derivation -/
 def Inv (e : E) : Prop := e.stack ≠ [] → e.src ≠ []
@@ -121,7 +121,7 @@ theorem step_src (e : E) (c : Call) (hi : Inv e) (ho : CallerOutside c) :
       apply Classical.byContradiction; intro h; exact hi h h1
     by_cases h3 : evalArg (wiring c.m).src c = []
     · by_cases h4 : c.m = .base
-      · simp [h1, h2, h3, h4, wiring_noStack_iff]
+      · simp [h1, h2, h4, wiring_noStack_iff]
       · have h5 : (wiring c.m).stack ≠ .noStack := fun h => h4 ((wiring_noStack_iff _).mp h)
         simp [h1, h2, h3, h4, h5, nearestExternal_makeStack _ _ h5 ho]
     · simp [h1, h3]
@@ -246,6 +246,93 @@ theorem derive_result (h : Heap) (d : Deriv) (e : E) (he : h[d.addr]? = some e) 
     derive h d = h ++ [step e d.call] := by
   simp [derive, he]
 
+/-! ## Concurrent derivations: write sets and data races -/
+
+/-- **Tie A, write sets.** Every store in the code a derivation runs (`CloneBase`, the stack
+helpers, every method of `*GError`) goes to an object the same function has just allocated or to
+one of its own local variables — none through a parameter, the receiver or a package variable.
+Regenerated from the source and re-checked on every run. -/
+theorem stores_fresh_or_local : ∀ s ∈ Generated.GerrorBase.stores, s.2.2 ≠ StoreClass.shared := by
+  decide
+
+theorem mem_threadEvents (alloc : Nat → Nat → Nat) (tid f k : Nat) (e : Ev) :
+    e ∈ threadEvents alloc tid f k ↔
+      e.tid = tid ∧ ∃ i, i < k ∧ (e.acc = .read (chainBase alloc tid f i) ∨ e.acc = .write (alloc tid i)) := by
+  induction k with
+  | zero => simp [threadEvents]
+  | succ k ih =>
+    simp only [threadEvents, List.mem_append, ih, callEvents, List.mem_cons, List.not_mem_nil, or_false]
+    constructor
+    · rintro (⟨ht, i, hi, h⟩ | h | h)
+      · exact ⟨ht, i, Nat.lt_succ_of_lt hi, h⟩
+      · subst h; exact ⟨rfl, k, Nat.lt_succ_self k, Or.inl rfl⟩
+      · subst h; exact ⟨rfl, k, Nat.lt_succ_self k, Or.inr rfl⟩
+    · rintro ⟨ht, i, hi, h⟩
+      by_cases hik : i < k
+      · exact Or.inl ⟨ht, i, hik, h⟩
+      · have : i = k := by omega
+        subst this
+        cases e with
+        | mk t a =>
+          simp only at ht h; subst ht
+          cases h with
+          | inl h => exact Or.inr (Or.inl (by rw [h]))
+          | inr h => exact Or.inr (Or.inr (by rw [h]))
+
+/-- the allocator hands out addresses that did not exist before (`≥ n0`) and never gives two of the
+`T` goroutines the same address -/
+structure FreshAlloc (n0 T : Nat) (alloc : Nat → Nat → Nat) : Prop where
+  fresh : ∀ t i, n0 ≤ alloc t i
+  own : ∀ t i t' i', t < T → t' < T → alloc t i = alloc t' i' → t = t'
+
+/-- **Derivations write only fresh memory.** In any program of any number of goroutines deriving
+chains of any length from shared factories, every write goes to an address allocated during the
+run; no object that existed before (no factory) is written. -/
+theorem derivations_write_only_fresh (n0 T : Nat) (alloc : Nat → Nat → Nat) (ha : FreshAlloc n0 T alloc)
+    (gs : List Goroutine) (e : Ev) (he : e ∈ allEvents alloc gs) (hw : e.acc.isWrite = true) :
+    n0 ≤ e.acc.addr := by
+  simp only [allEvents, List.mem_flatMap] at he
+  obtain ⟨g, _, hg⟩ := he
+  obtain ⟨_, i, _, h | h⟩ := (mem_threadEvents _ _ _ _ _).mp hg
+  · rw [h] at hw; simp [Access.isWrite] at hw
+  · rw [h]; exact ha.fresh _ _
+
+/-- **No data race.** If the goroutines have distinct ids and start from objects that existed
+before the run, two accesses to one location from different goroutines are both reads — for every
+number of goroutines, all chain lengths, and (the condition being on the set of accesses) every
+interleaving. -/
+theorem no_data_race (n0 T : Nat) (alloc : Nat → Nat → Nat) (ha : FreshAlloc n0 T alloc)
+    (gs : List Goroutine) (hf : ∀ g ∈ gs, g.factory < n0) (hT : ∀ g ∈ gs, g.tid < T)
+    (e1 e2 : Ev) (h1 : e1 ∈ allEvents alloc gs) (h2 : e2 ∈ allEvents alloc gs)
+    (ht : e1.tid ≠ e2.tid) (hadr : e1.acc.addr = e2.acc.addr) :
+    e1.acc.isWrite = false ∧ e2.acc.isWrite = false := by
+  simp only [allEvents, List.mem_flatMap] at h1 h2
+  obtain ⟨g1, hg1, hm1⟩ := h1
+  obtain ⟨g2, hg2, hm2⟩ := h2
+  obtain ⟨t1, i, _, c1⟩ := (mem_threadEvents _ _ _ _ _).mp hm1
+  obtain ⟨t2, j, _, c2⟩ := (mem_threadEvents _ _ _ _ _).mp hm2
+  have hne : g1.tid ≠ g2.tid := by rw [← t1, ← t2]; exact ht
+  -- the address of a chain base is the factory (old) or one of the goroutine's own results
+  have base_cases : ∀ (g : Goroutine) (k : Nat), g ∈ gs →
+      chainBase alloc g.tid g.factory k < n0 ∨ ∃ k', chainBase alloc g.tid g.factory k = alloc g.tid k' := by
+    intro g k hg
+    cases k with
+    | zero => exact Or.inl (hf g hg)
+    | succ k => exact Or.inr ⟨k, rfl⟩
+  have clash : ∀ (ia ib : Nat), alloc g1.tid ia = alloc g2.tid ib → False :=
+    fun ia ib h => hne (ha.own _ _ _ _ (hT g1 hg1) (hT g2 hg2) h)
+  rcases c1 with c1 | c1 <;> rcases c2 with c2 | c2 <;> rw [c1, c2] at hadr <;> simp only [Access.addr] at hadr
+  · rw [c1, c2]; exact ⟨rfl, rfl⟩
+  · exfalso
+    rcases base_cases g1 i hg1 with h | ⟨k', h⟩
+    · have := ha.fresh g2.tid j; omega
+    · rw [h] at hadr; exact clash _ _ hadr
+  · exfalso
+    rcases base_cases g2 j hg2 with h | ⟨k', h⟩
+    · have := ha.fresh g1.tid i; omega
+    · rw [h] at hadr; exact clash _ _ hadr
+  · exfalso; exact clash _ _ hadr
+
 /-! ## Non-vacuity -/
 
 def exFactory : E := ⟨"ErrA".toList, "base".toList, [], [], []⟩
@@ -265,5 +352,12 @@ example :
       ⟨"ErrA".toList, "base 5".toList, "sites:(*T):Plain".toList, "t-u".toList, exFrames.toList⟩ := by
   decide
 
-end GErrClone
 
+/-- an allocator striped over 16 goroutines satisfies `FreshAlloc`; two goroutines share factory 1 -/
+example : FreshAlloc 3 16 (fun t i => 3 + 16 * i + t) ∧
+    (allEvents (fun t i => 3 + 16 * i + t) [⟨0, 1, 2⟩, ⟨1, 1, 1⟩]).length = 6 := by
+  refine ⟨⟨fun t i => by omega, ?_⟩, by decide⟩
+  intro t i t' i' ht ht' h
+  omega
+
+end GErrClone
